@@ -82,7 +82,7 @@ Proof.
   - intros A d _ Hh. brute d; fin.
   - (* root_factor *) intros A r Hh. brute r; fin.
   - intros A r Hh. brute r; fin.
-  - (* evals *) intros A e Hh. brute e; fin.
+  - (* evals *) intros A e vecs Hh. brute e; fin.
   - (* solve *) intros A st rhs v E. simpl in E. inversion E; subst. fin.
   - (* iqld_tri *) intros A t rhs ld Hh Ht. brute t; destruct rhs; fin.
   - (* iqld_chol *) intros A c rhs ld Hh. brute c; destruct rhs; fin.
@@ -94,7 +94,278 @@ Proof.
   - (* sample_root *) intros A R z Hh. brute R; fin.
   - intros A z. fin.
   - intros A d z _ Hh. brute d; fin.
-  - (* lr_update *) intros A L M B HL HM Hc. unfold scompat in Hc. brute L; brute M; fin.
+  - (* lr_update *) intros A L M B HL HM Hc. unfold scompat in Hc.
+    unfold svalid, sym_valid in HL, HM.
+    repeat match goal with H : _ && _ = true |- _ => apply andb_prop in H; destruct H end.
+    repeat match goal with H : smat_eqb _ _ = true |- _ => apply smat_eqb_eq in H end.
+    unfold svalid, sym_valid. simpl.
+    repeat match goal with H : ?x = true |- _ => rewrite H end.
+    repeat match goal with H : sv_of _ = _ |- _ => rewrite H end.
+    rewrite ?smat_eqb_refl, ?Nat.eqb_refl. simpl. split; reflexivity.
   - (* cat_update *) intros A E R B D st gi nr ni HE HR Hc Hu. unfold scompat in Hc.
-    brute E; brute R; destruct st, gi; simpl in Hu; inversion Hu; subst; split; try (intros x Hx; inversion Hx; subst); fin.
+    unfold svalid, sym_valid in HE, HR.
+    repeat match goal with H : _ && _ = true |- _ => apply andb_prop in H; destruct H end.
+    repeat match goal with H : smat_eqb _ _ = true |- _ => apply smat_eqb_eq in H end.
+    unfold label_ok in *.
+    simpl in Hu.
+    repeat match goal with H : ?x = true |- _ => rewrite H in Hu end.
+    repeat match goal with H : sv_of _ = _ |- _ => rewrite H in Hu end.
+    simpl in Hu.
+    destruct gi; [destruct (sv_tri E) eqn:Et; [destruct st; simpl in Hu; [destruct (sv_upper E) eqn:Eu; [discriminate|]|]|]|];
+      inversion Hu; subst; unfold svalid, sym_valid; simpl; rewrite ?smat_eqb_refl, ?Nat.eqb_refl; simpl;
+      (split; [|intros x Hx; inversion Hx; subst; simpl; rewrite ?smat_eqb_refl, ?Nat.eqb_refl; simpl]);
+      unfold label_ok; simpl;
+      repeat match goal with H : negb _ || _ = true |- _ => simpl in H end; auto.
+    all: try (destruct (sv_tri_ok E); simpl in *; auto; discriminate).
+Qed.
+
+(* ------------------------------------------------------------------ instances of the history predicates *)
+Notation sInv := (Inv sym_kern svalid (fun _ => False) (fun _ => True) (fun _ _ => True) (fun _ _ => True)).
+Notation sgood := (good_run sym_kern fl_pinned scompat (fun _ => False) (fun _ => True) (fun _ _ => True) (fun _ _ => True)).
+Notation sanswers := (answers_ok sym_kern fl_pinned svalid).
+Notation sevent_ok := (event_ok sym_kern fl_pinned scompat (fun _ => False) (fun _ => True) (fun _ _ => True) (fun _ _ => True)).
+
+Definition dense_obj (n k : nat) : obj sym_kern := Build_obj sym_kern pf_plain n true (SBase k) None None.
+Definition dense_new (n : nat) : newobj sym_kern := Build_newobj sym_kern pf_plain n true (SBase 99).
+Definition heap1 : heap sym_kern := Build_heap sym_kern [dense_obj 4 0] 0.
+Definition st_lanczos : settings :=
+  {| st_max_chol := 0; st_fc_root := true; st_fc_logprob := true; st_fc_solves := true; st_ciq := false;
+     st_precond_size := 15; st_min_precond := 2000 |}.
+
+Lemma heap1_inv : sInv heap1.
+Proof.
+  apply Inv_fresh. intros [|i] o G; [|destruct i; discriminate]. inversion G; subst. simpl.
+  repeat split; try discriminate; auto.
+Qed.
+
+(* the object-level state after a history, for statements about it *)
+Definition final (es : list (event sym_kern)) : heap sym_kern := snd (snd (run sym_kern fl_pinned (st_default, heap1) es)).
+Definition entries_bad (h : heap sym_kern) : list (nat * nat) :=
+  (fix go (os : list (obj sym_kern)) (i : nat) : list (nat * nat) :=
+     match os with
+     | [] => []
+     | o :: r =>
+         (fix pos (d : list (key * sval)) (p : nat) : list (nat * nat) :=
+            match d with
+            | [] => []
+            | kv :: d' => if forallb (fun a => sym_valid a (o_mat sym_kern o) (snd kv)) (aspects_of_key (fst kv))
+                          then pos d' (S p) else (i, p) :: pos d' (S p)
+            end) (dict_of (o_memo sym_kern o)) 0 ++ go r (S i)
+     end) (h_objs sym_kern h) 0.
+
+(* 1. add_low_rank with default methods on a small matrix: the Cholesky root of A is triangular, the update
+      L U S~ is wrapped in TriangularLinearOperator: the entry transplanted onto the new operator is invalid,
+      and logdet() of the new operator - which takes the triangular-root shortcut - is wrong *)
+Definition hist_label : list (event sym_kern) :=
+  [EDerive 0 (DAddLowRank 0 PNone PNone true) [] (dense_new 4); EQuery 1 QLogdet].
+
+Theorem add_low_rank_label_refuted :
+  ~ sInv (final hist_label) /\ ~ sanswers (st_default, heap1) hist_label /\
+  entries_bad (final hist_label) = [(1, 0); (1, 1)].
+Proof.
+  split; [|split].
+  - intros I. assert (G : get_obj sym_kern 1 (final hist_label) = Some (nth 1 (h_objs sym_kern (final hist_label)) (dense_obj 0 0)))
+      by (vm_compute; reflexivity).
+    destruct (I 1 _ G) as (Mo & _).
+    assert (Hin : In (KFull (NStr "root_decomposition") [] [],
+                      snd (nth 0 (dict_of (o_memo sym_kern (nth 1 (h_objs sym_kern (final hist_label)) (dense_obj 0 0))))
+                               (KName (NStr ""), k_dense sym_kern (SBase 0))))
+                     (dict_of (o_memo sym_kern (nth 1 (h_objs sym_kern (final hist_label)) (dense_obj 0 0)))))
+      by (vm_compute; left; reflexivity).
+    specialize (Mo _ _ Hin ARoot (or_introl eq_refl)). vm_compute in Mo. discriminate.
+  - intros (_ & A2 & _).
+    assert (G : get_obj sym_kern 1 (snd (snd (step sym_kern fl_pinned (st_default, heap1) (nth 0 hist_label (ESet st_default)))))
+                = Some (nth 1 (h_objs sym_kern (snd (snd (step sym_kern fl_pinned (st_default, heap1) (nth 0 hist_label (ESet st_default))))))
+                            (dense_obj 0 0)))
+      by (vm_compute; reflexivity).
+    specialize (A2 _ G). vm_compute in A2. discriminate.
+  - vm_compute. reflexivity.
+Qed.
+
+(* 2. root and inverse root from different factorizations (symeig / cholesky): both individually valid,
+      L M^T <> I, the transplanted root is invalid *)
+Definition hist_methods : list (event sym_kern) :=
+  [EDerive 0 (DAddLowRank 1 (PStr "symeig") (PStr "cholesky") true) [] (dense_new 4)].
+
+Theorem add_low_rank_methods_refuted :
+  entries_bad (final hist_methods) = [(1, 0)] /\
+  entries_bad (snd (snd (run sym_kern fl_pinned (st_default, heap1)
+     [EQuery 0 (QRootDecomp [] [("method", PStr "symeig")]); EQuery 0 (QRootInv [] [("method", PStr "cholesky")])]))) = [].
+Proof. split; vm_compute; reflexivity. Qed.
+
+(* 3. cat_rows with a root cached under Cholesky and an inverse root computed after max_cholesky_size(0)
+      (Lanczos): E R^T <> I, both transplanted factors are invalid *)
+Definition hist_cat : list (event sym_kern) :=
+  [EQuery 0 (QRootDecomp [] []); ESet st_lanczos; EDerive 0 (DCatRows 0 0 1 true true) [] (dense_new 5)].
+
+Theorem cat_rows_settings_refuted : entries_bad (final hist_cat) = [(1, 0); (1, 1)].
+Proof. vm_compute. reflexivity. Qed.
+
+(* 4. eigh() after a ("symeig", eigenvectors=True) entry: the entry is popped, the eigenvectors are dropped *)
+Definition hist_eigh : list (event sym_kern) := [ESeedSymeig 0; EQuery 0 QEigh; EQuery 0 QEigh].
+
+Theorem eigh_after_cached_symeig_refuted :
+  map (fun a : answer sym_kern => match a with AVal (Ok v) => sym_valid (AEig true) (SBase 0) v | _ => true end)
+      (fst (run sym_kern fl_pinned (st_default, heap1) hist_eigh)) = [true; false; true]
+  /\ map (fun o => d_keys (dict_of (o_memo sym_kern o))) (h_objs sym_kern (final [ESeedSymeig 0; EQuery 0 QEigh])) = [[]]
+  /\ ~ sanswers (st_default, heap1) hist_eigh.
+Proof.
+  split; [vm_compute; reflexivity|]. split; [vm_compute; reflexivity|].
+  intros (_ & A2 & _).
+  assert (G : get_obj sym_kern 0 (snd (snd (step sym_kern fl_pinned (st_default, heap1) (ESeedSymeig 0))))
+              = Some (nth 0 (h_objs sym_kern (snd (snd (step sym_kern fl_pinned (st_default, heap1) (ESeedSymeig 0))))) (dense_obj 0 0)))
+    by (vm_compute; reflexivity).
+  specialize (A2 _ G). vm_compute in A2. discriminate.
+Qed.
+
+(* 5. the hypotheses of the history theorem are satisfiable on a non-trivial history: a root from symeig, an
+      add_low_rank with MATCHING methods (compatible, not triangular), queries on the new operator under switched
+      settings, a cat_rows whose roots come from one Lanczos run *)
+Definition hist_good : list (event sym_kern) :=
+  [EQuery 0 (QRootDecomp [] [("method", PStr "symeig")]);
+   EDerive 0 (DAddLowRank 0 (PStr "symeig") (PStr "symeig") true) [] (dense_new 4);
+   EQuery 1 QLogdet; EQuery 1 (QRootDecomp [] []); EQuery 1 (QIqld 0 true);
+   ESet st_lanczos;
+   EQuery 0 (QRootInv [] []); EQuery 0 (QSample 0); EQuery 1 QEigh;
+   EDerive 0 (DCatRows 0 0 2 true true) [] (dense_new 6);
+   EQuery 2 (QRootDecomp [] []); EQuery 2 (QCholesky [] [("upper", PBool true)])].
+
+(* ---- a decision procedure for the side conditions of the history theorem on the symbolic instance *)
+Notation swf := (obj_wf sym_kern (fun _ => False) (fun _ => True) (fun _ _ => True) (fun _ _ => True)).
+
+Definition obj_wfb (h : heap sym_kern) (o : obj sym_kern) : bool :=
+  (match pf_eig (o_pf sym_kern o) with EigShift c => c <? List.length (h_objs sym_kern h) | EigBase => true end) &&
+  (match pf_cm_root (o_pf sym_kern o) with Some c => c <? List.length (h_objs sym_kern h) | None => true end) &&
+  negb (pf_chol_ignore (o_pf sym_kern o)) &&
+  (match pf_td_name (o_pf sym_kern o) with Some f => ends_with "to_dense" f | None => true end).
+
+Lemma get_some_lt i (h : heap sym_kern) : i <? List.length (h_objs sym_kern h) = true -> exists o, get sym_kern i h = Some o.
+Proof.
+  intros Hl. apply Nat.ltb_lt in Hl. unfold get, get_obj.
+  destruct (nth_error (h_objs sym_kern h) i) eqn:E; eauto. apply nth_error_None in E. lia.
+Qed.
+
+Lemma obj_wfb_ok h o : obj_wfb h o = true -> swf h o.
+Proof.
+  unfold obj_wfb. intros Hb. repeat (apply andb_prop in Hb; destruct Hb as [Hb ?]).
+  repeat split.
+  - intros c Ec. rewrite Ec in Hb. destruct (get_some_lt _ _ Hb) as (oc & G). eauto.
+  - intros c Ec. rewrite Ec in H1. destruct (get_some_lt _ _ H1) as (oc & G). eauto.
+  - intros Hig. rewrite Hig in H0. discriminate.
+  - intros f Ef. rewrite Ef in H. exact H.
+Qed.
+
+Fixpoint allocs_wfb (h : heap sym_kern) (l : list (obj sym_kern)) : bool :=
+  match l with
+  | [] => true
+  | x :: r => (match o_memo sym_kern x with None => true | Some _ => false end) &&
+              (match o_adhoc sym_kern x with None => true | Some _ => false end) &&
+              obj_wfb h x && allocs_wfb (happ sym_kern h [x]) r
+  end.
+
+Lemma allocs_wfb_ok l : forall h, allocs_wfb h l = true ->
+  allocs_wf sym_kern (fun _ => False) (fun _ => True) (fun _ _ => True) (fun _ _ => True) h l.
+Proof.
+  induction l as [|x r IH]; intros h Hb; simpl in *; auto.
+  repeat (apply andb_prop in Hb; destruct Hb as [Hb ?]).
+  destruct (o_memo sym_kern x); [discriminate|]. destruct (o_adhoc sym_kern x); [discriminate|].
+  split; [reflexivity|]. split; [reflexivity|]. split; [apply obj_wfb_ok; assumption | apply IH; assumption].
+Qed.
+
+Definition symeig_key : key := KFull (NStr "symeig") [] [("eigenvectors", PBool true)].
+
+Definition transplant_okb (d : deriv) (x : nat * option (Val sym_kern * Val sym_kern)) : bool :=
+  match snd x, d with
+  | Some (L, Mi), DAddLowRank _ _ _ _ => compat (v_root sym_kern L) (v_root sym_kern Mi) && negb (v_is_tri sym_kern (v_root sym_kern L))
+  | Some (E, R), DCatRows _ _ _ _ _ => compat (v_root sym_kern E) (v_root sym_kern R)
+  | _, _ => true
+  end.
+
+Definition event_okb (s : state sym_kern) (e : event sym_kern) : bool :=
+  let (st, h) := s in
+  let ex i := i <? List.length (h_objs sym_kern h) in
+  match e with
+  | EQuery i q =>
+      ex i && match q with
+              | QEigh | QEigvalsh =>
+                  match get_obj sym_kern i h with
+                  | Some o => negb (d_mem (dict_of (o_memo sym_kern o)) symeig_key)
+                  | None => true
+                  end
+              | _ => true
+              end
+  | EDerive i d kids res_ =>
+      ex i &&
+      match get_obj sym_kern i h with
+      | Some o => allocs_wfb h (map (fun x => mk_obj sym_kern x (no_mat sym_kern x)) kids ++
+                                [mk_obj sym_kern res_ (deriv_mat sym_kern d (o_mat sym_kern o))])
+      | None => true
+      end &&
+      match fst (deriv_roots sym_kern st i d kids res_ h) with
+      | Ok x => transplant_okb d x
+      | Raise _ => true
+      end
+  | ESeedSymeig i | EClear i => ex i
+  | ESet _ => true
+  end.
+
+Lemma no_symeig_b i (h : heap sym_kern) :
+  match get_obj sym_kern i h with
+  | Some o => negb (d_mem (dict_of (o_memo sym_kern o)) symeig_key)
+  | None => true
+  end = true -> no_symeig sym_kern i h.
+Proof.
+  intros Hb o G. unfold get in G. rewrite G in Hb. unfold d_mem in Hb. fold symeig_key.
+  remember (d_get (dict_of (o_memo sym_kern o)) symeig_key) as x. destruct x; [discriminate | reflexivity].
+Qed.
+
+Lemma transplant_b_ok d (r : res (nat * option (Val sym_kern * Val sym_kern))) :
+  match r with Ok x => transplant_okb d x | Raise _ => true end = true ->
+  res_ok r (transplant_ok sym_kern fl_pinned scompat d).
+Proof.
+  destruct r as [x|ex]; simpl; [|auto]. intros Ht.
+  unfold transplant_ok, transplant_okb, scompat in *. destruct (snd x) as [[L Mi]|]; [|exact I].
+  destruct d; auto. apply andb_prop in Ht. destruct Ht as [Hc Htri]. split; [exact Hc|].
+  destruct (v_is_tri sym_kern (v_root sym_kern L)); [discriminate | reflexivity].
+Qed.
+
+Lemma event_okb_ok s e : event_okb s e = true -> sevent_ok s e.
+Proof.
+  destruct s as [st h]. destruct e as [i q|i d kids res_|st'|i|i]; simpl; intros Hb.
+  - apply andb_prop in Hb. destruct Hb as [Hex Hq]. split; [apply get_some_lt; exact Hex|].
+    destruct q; simpl; try exact I; intros _; apply no_symeig_b; exact Hq.
+  - apply andb_prop in Hb. destruct Hb as [Hb Ht]. apply andb_prop in Hb. destruct Hb as [Hex Hn].
+    split; [apply get_some_lt; exact Hex|]. split.
+    + intros o G. unfold get in G. rewrite G in Hn. apply allocs_wfb_ok. exact Hn.
+    + apply transplant_b_ok. exact Ht.
+  - exact I.
+  - apply get_some_lt. exact Hb.
+  - apply get_some_lt. exact Hb.
+Qed.
+
+Fixpoint good_runb (s : state sym_kern) (es : list (event sym_kern)) : bool :=
+  match es with
+  | [] => true
+  | e :: r => event_okb s e && good_runb (snd (step sym_kern fl_pinned s e)) r
+  end.
+
+Lemma good_runb_ok es : forall s, good_runb s es = true -> sgood s es.
+Proof.
+  induction es as [|e r IH]; intros s Hb; simpl in *; auto.
+  apply andb_prop in Hb. destruct Hb as [He Hr]. split; [apply event_okb_ok; exact He | apply IH; exact Hr].
+Qed.
+
+Example hist_good_ok : sgood (st_default, heap1) hist_good.
+Proof. apply good_runb_ok. vm_compute. reflexivity. Qed.
+
+(* and the refuted histories are exactly those whose transplant / eigh side condition fails *)
+Example refuted_histories_violate_the_side_condition :
+  good_runb (st_default, heap1) hist_label = false /\ good_runb (st_default, heap1) hist_methods = false /\
+  good_runb (st_default, heap1) hist_cat = false /\ good_runb (st_default, heap1) hist_eigh = false.
+Proof. repeat split; vm_compute; reflexivity. Qed.
+
+Example hist_good_answers : sInv (final hist_good) /\ sanswers (st_default, heap1) hist_good.
+Proof.
+  destruct (history_invariant_gen sym_kern fl_pinned svalid scompat _ _ _ _ sym_kern_ok hist_good (st_default, heap1) heap1_inv hist_good_ok)
+    as (I & _ & A). split; assumption.
 Qed.
